@@ -10,7 +10,7 @@
     set_str_name rejects (D37: ' .a' could not be created) and fits 8 + 3 bytes (C15_alias).  The OEM code page side
     (str.upper, codecs) is checked on the implementation for every length and code page. *)
 From Coq Require Import ZArith List Bool Sorted.
-From PyFatV Require Import Base.Bytes Base.PyEnv Gen.Pure Model.Codec Model.Dir Proofs.Names Proofs.DirCodec Proofs.Alias.
+From PyFatV Require Import Base.Bytes Base.PyEnv Gen.Pure Model.Codec Model.Dir Model.FS Proofs.Names Proofs.DirCodec Proofs.Alias.
 Import ListNotations.
 Open Scope Z_scope.
 
@@ -53,3 +53,8 @@ Example C15_alias_ext_only :
   make_8dot3 (mkName [32;46;97] (Some [32;46;97]) (Some [32;46;65]) [] [65] false)
              [mkDirent [65;32;32;32;32;32;32;32;32;32;32] 32 0 0 0 0 0 0 0 0 0 0 None] = Ok ([65;126;49], []).
 Proof. vm_compute. split; reflexivity. Qed.
+
+(* the alias route never refuses a name: an EINVAL of new_names comes from the long-name builder (a conform name) only *)
+Theorem C15_alias_never_refused : forall s n es, new_names s n es = Err EINVAL -> exists b e, make_8dot3 n es = Ok (b, e) /\ n_conform n = true.
+Proof. exact new_names_never_refuses_alias. Qed.
+Print Assumptions C15_alias_never_refused.
